@@ -361,3 +361,27 @@ PROPS["C08"]["rule"] += _CFG_REUSE + ("a node that is not passive keeps answerin
                                       "value later do not silence it), consults its own hook, its own hook's veto holds, replies carry its own id (oracles *:after-config-reuse)")
 PROPS["C11"]["rule"] += _CFG_REUSE + "announces accepted before and after the change come back from get_peers with a token, the node's own announce hook is called"
 PROPS["C20"]["rule"] += _CFG_REUSE + "an exact-budget limiter stays in force (3 replies to 6 pings), a node configured to wait for budget sends every reply"
+
+# flood engine, content of overlapping replies (harness/cmd/h/flood_writes.go); a C10 / C11 run executes only its own family of the engine (VERIF_PROP)
+PROPS["C10"]["engines"] = ["server", "flood"]
+PROPS["C10"]["rule"] += (" ; flood engine, kind tokens (oracle only): 48 (thorough 160) hosts with pairwise distinct IPs (4-byte / IPv6 / v4-mapped, every eighth IP from two "
+                         "ports) ask for a token at the same time (get_peers / get, other queries in between) x {peer store, peer store + announce hook, hook only, neither} x "
+                         "WaitToReply x {datagrams handed over back to back; whole burst queued in the socket; the same under GOMAXPROCS(1); 6 nodes in one process "
+                         "flooded at once}; every host then writes (announce_peer with port / implied_port, immutable put) from its own IP (same / other port, other "
+                         "spelling of an IPv4 address) with the token ITS reply carried: acknowledged and effective (peer-store call, callback, item read back) - "
+                         "fresh-token-from-reply-not-honoured:*, write-with-fresh-token-acknowledged-without-effect:*; the token of host A presented from the IP of its "
+                         "neighbours in the delivery order / of a random host, and to another node of the process: no reply, no effect - "
+                         "token-sent-to-one-ip-accepted-from-another:*, token-of-another-node-accepted:*; same-token-delivered-to-two-ips:*")
+PROPS["C10"]["trusted"] = PROPS["C10"]["trusted"] + [
+    "flood engine: Go scheduler; a write counts as ignored when neither its acknowledgement nor its effect is there although a later datagram of the same "
+    "socket queue was answered and nothing has arrived for 5 s; accepted = a datagram or an effect that is really there"]
+PROPS["C11"]["engines"] = ["server", "api", "flood"]
+PROPS["C11"]["rule"] += (" ; flood engine, kind peers (oracle only): 32 infohashes with 1-40 peers (4-byte IPv4 and IPv6) announced over the wire (token, port / implied_port), "
+                         "every endpoint derived from its infohash's index; at rest, batches of 256-1536 get_peers (thorough x2, 6x the rounds) from 40 IPv4 / IPv6 / v4-mapped "
+                         "requesters with want absent / n4 / n6 / both, for announced and unknown infohashes (find_node in between), answered at once x {back to back; "
+                         "queued; GOMAXPROCS(1); 6 nodes on one store flooded in parallel, WaitToReply on / off}: every reply, attributed by (t, destination): values are "
+                         "endpoints announced for THAT infohash (value-never-announced-for-this-infohash:*, says whose endpoint it is), every acknowledged peer of a wanted "
+                         "family once (announced-peer-missing-from-values:*, endpoint-listed-twice:*), 6-byte entries only for IPv4 wanters, 18-byte only for IPv6 wanters, "
+                         "entry length 6 / 18, token present")
+PROPS["C08"]["rule"] += (" ; flood engine, one small case of the kinds tokens / peers (see C10 / C11): ip of every get_peers reply = its requester "
+                         "(response-ip-not-requester-compact-address:flood-peers), every query answered, accepted writes acknowledged")
